@@ -6,25 +6,30 @@ EXTENDS CfgUpdateI
 
 CONSTANTS FlowSet,        \* flow files of the instance
           Endpoints, Methods, MaxNth, WithBadB64,
+          MxOld,          \* contents of the user's metrics file in the old configurations ("none": the built-in default is in force)
           GwOld,          \* contents of the gateway config file in the old configurations ("none" = absent)
           AnchorFlows     \* flows that exist (v1) in every old configuration (shrinks the quick instance; {} = no restriction)
 
-PathsMC == FlowSet \cup {"gateway_config.yaml", "metrics.yaml"}
-CatMC == [q \in PathsMC |-> IF q \in FlowSet THEN 1 ELSE IF q = "gateway_config.yaml" THEN 4 ELSE 5]
+PathsMC == FlowSet \cup {"gateway_config.yaml", "metrics.yaml", "default_metrics.yaml"}
+CatMC == [q \in PathsMC |-> IF q \in FlowSet THEN 1 ELSE IF q = "gateway_config.yaml" THEN 4
+                                                     ELSE IF q = "metrics.yaml" THEN 5 ELSE 6]
 
-\* old configuration: every flow absent or v1 (at least one flow), gateway config absent or g1, metrics m1
-Disks == {d \in [PathsMC -> {"none", "v1", "g1", "m1"}] :
+\* old configuration: every flow absent or v1 (at least one flow), gateway config absent or g1, the user's metrics
+\* file absent or m1, the gateway's built-in default metrics file d1 (not part of any payload)
+Disks == {d \in [PathsMC -> {"none", "v1", "g1", "m1", "d1"}] :
             /\ \A f \in FlowSet : d[f] \in {"none", "v1"}
             /\ \E f \in FlowSet : d[f] = "v1"
             /\ \A f \in AnchorFlows : d[f] = "v1"
             /\ d["gateway_config.yaml"] \in GwOld
-            /\ d["metrics.yaml"] = "m1"}
+            /\ d["metrics.yaml"] \in MxOld
+            /\ d["default_metrics.yaml"] = "d1"}
 
 \* payload: per path absent / a valid new version / an invalid one
 Opts == {o \in [PathsMC -> {"absent", "v2", "bad", "g2", "gbad", "m2", "mbad"}] :
             /\ \A f \in FlowSet : o[f] \in {"absent", "v2", "bad"}
             /\ o["gateway_config.yaml"] \in {"absent", "g2", "gbad"}
-            /\ o["metrics.yaml"] \in {"absent", "m2", "mbad"}}
+            /\ o["metrics.yaml"] \in {"absent", "m2", "mbad"}
+            /\ o["default_metrics.yaml"] = "absent"}
 PayloadOf(o) == [q \in {r \in PathsMC : o[r] # "absent"} |-> o[q]]
 
 Faults == {[point |-> "none", nth |-> 0]}
